@@ -4,6 +4,7 @@
 //! trusted: R15 (statement slicing, deep form): do_read_event is ~600 lines under three locks with function-local macros; the unit extracts, on every run, (a) the statements between `let msg_len = ..decrypt_length_header..` and `peer.pending_read_is_header = false;` and (b) the "Reset read buffer" statements of the body branch, verbatim, as two functions of the two Peer fields they touch; everything else of do_read_event is dropped and not claimed
 //! trusted: env: Peer skeleton {pending_read_buffer, pending_read_is_header}; PeerHandleError empty struct (as in the source)
 //! trusted: assume_specification for Vec::capacity (some value >= len; std definition)
+//! trusted: R15 (deep slice): do_attempt_write_data: the statements from taking the front of pending_outbound_buffer to the end of the loop body (send_data, offset bookkeeping, pop) verbatim as a function; the queue is a stub over a Vec with the std VecDeque contracts of front / pop_front; SocketDescriptor::send_data is external_body with its documented contract (accepts a prefix) and a ghost log; `&buf[off..]` is the external_body wrapper vec_from (R8); the capacity-shrinking statements (memory only) are dropped (R15); gossip backfill and message generation before these statements are dropped and not claimed
 //! assume: usize is at least 32 bits (vstd's usize model)
 #![feature(allocator_api)]
 use vstd::prelude::*;
@@ -59,5 +60,76 @@ pub open spec fn frame_inv(p: Peer) -> bool {
     resize(16, 0)
 //@end
 
+
+// ---- sending: partial socket writes never lose, repeat or reorder a byte (deep R15 slice of do_attempt_write_data) ----
+// the socket: send_data accepts a prefix of what it is given (SocketDescriptor contract) and `sent` is the ghost log of everything it has accepted
+pub struct Descriptor { pub sent: Ghost<Seq<u8>> }
+impl Descriptor {
+    #[verifier::external_body] pub fn send_data(&mut self, data: &[u8], continue_read: bool) -> (r: usize)
+        ensures r <= data@.len(), final(self).sent@ == old(self).sent@ + data@.take(r as int) { unimplemented!() }
+}
+// the queue of encrypted messages waiting to be written (a VecDeque<Vec<u8>> in the source): front / pop_front / len / capacity as in std
+pub struct OutQueue { pub q: Vec<Vec<u8>> }
+impl OutQueue {
+    #[verifier::external_body] pub fn front(&self) -> (r: Option<&Vec<u8>>) ensures self.q@.len() == 0 ==> r is None, self.q@.len() > 0 ==> r is Some && *r->Some_0 == self.q@[0] { unimplemented!() }
+    #[verifier::external_body] pub fn pop_front(&mut self) -> (r: Option<Vec<u8>>) ensures old(self).q@.len() > 0 ==> final(self).q@ == old(self).q@.skip(1), old(self).q@.len() == 0 ==> final(self).q@ == old(self).q@ { unimplemented!() }
+}
+#[verifier::external_body] pub fn vec_from(v: &Vec<u8>, from: usize) -> (r: &[u8]) requires from <= v@.len() ensures r@ == v@.skip(from as int) { unimplemented!() }
+pub struct WritePeer { pub pending_outbound_buffer: OutQueue, pub pending_outbound_buffer_first_msg_offset: usize, pub sent_pause_read: bool, pub awaiting_write_event: bool }
+// the bytes still to be written: all queued messages back to back, minus what has already been written of the first one
+pub open spec fn flat(s: Seq<Vec<u8>>) -> Seq<u8> decreases s.len() { if s.len() == 0 { Seq::<u8>::empty() } else { s[0]@ + flat(s.skip(1)) } }
+pub open spec fn unsent(p: WritePeer) -> Seq<u8> { flat(p.pending_outbound_buffer.q@).skip(p.pending_outbound_buffer_first_msg_offset as int) }
+//@extract lightning/src/ln/peer_handler.rs :: impl PeerManager :: fn do_attempt_write_data
+//@slice R15
+    let next_buff = match peer.pending_outbound_buffer.front() { None => { $none:any }, Some(buff) => buff, }; force_one_write = false; $write:any }
+//@with
+    fn write_front_message(peer: &mut WritePeer, descriptor: &mut Descriptor, should_read: bool) -> bool {
+        let next_buff = match peer.pending_outbound_buffer.front() { None => { return false; }, Some(buff) => buff, };
+        proof {
+            let s = peer.pending_outbound_buffer.q@; let off = peer.pending_outbound_buffer_first_msg_offset as int;
+            assert(flat(s) == s[0]@ + flat(s.skip(1)));
+            assert(flat(s).skip(off) =~= s[0]@.skip(off) + flat(s.skip(1)));
+        }
+        let ghost front = *next_buff; let ghost off0 = peer.pending_outbound_buffer_first_msg_offset as int; let ghost rest = flat(peer.pending_outbound_buffer.q@.skip(1));
+        $write
+        proof {
+            let n = descriptor.sent@.len() - old(descriptor).sent@.len();
+            assert(descriptor.sent@ =~= old(descriptor).sent@ + front@.skip(off0).take(n));
+            if off0 + n == front@.len() {
+                assert(front@.skip(off0).take(n) =~= front@.skip(off0));
+                assert(unsent(*peer) =~= rest);
+            } else {
+                assert(flat(peer.pending_outbound_buffer.q@) == front@ + rest);
+                assert(unsent(*peer) =~= front@.skip(off0).skip(n) + rest);
+                assert(front@.skip(off0) =~= front@.skip(off0).take(n) + front@.skip(off0).skip(n));
+            }
+        }
+        true
+    }
+//@rw R8
+    &next_buff[peer.pending_outbound_buffer_first_msg_offset..]
+//@with
+    vec_from(next_buff, peer.pending_outbound_buffer_first_msg_offset)
+//@rw R9 ?
+    peer.pending_outbound_buffer_first_msg_offset += data_sent;
+//@with
+    let __len_hint = next_buff.len();   // R9 hint (pure): brings `len <= usize::MAX` into the context
+    peer.pending_outbound_buffer_first_msg_offset += data_sent;
+//@rw R15
+    const VEC_SIZE: usize = $vs; let large_capacity = $lc; let lots_of_slack = $ls; if large_capacity && lots_of_slack { $shrink:any }
+//@with
+    
+//@ret r
+//@requires
+    old(peer).pending_outbound_buffer.q@.len() > 0 ==> old(peer).pending_outbound_buffer_first_msg_offset <= old(peer).pending_outbound_buffer.q@[0]@.len(),
+//@ensures P C15 however-the-socket-fragments-writes-the-bytes-handed-to-it-plus-the-bytes-still-queued-are-always-the-queued-stream-nothing-lost-repeated-or-reordered
+    old(descriptor).sent@ + unsent(*old(peer)) == final(descriptor).sent@ + unsent(*final(peer)),
+    final(peer).pending_outbound_buffer.q@.len() > 0 ==> final(peer).pending_outbound_buffer_first_msg_offset <= final(peer).pending_outbound_buffer.q@[0]@.len(),
+    !r ==> final(descriptor).sent@ == old(descriptor).sent@ && final(peer).pending_outbound_buffer.q@ == old(peer).pending_outbound_buffer.q@,
+//@mutant offset_not_advanced_after_a_partial_write
+    peer.pending_outbound_buffer_first_msg_offset += data_sent;
+//@with
+    peer.pending_outbound_buffer_first_msg_offset += 0;
+//@end
 }
 fn main() {}
